@@ -247,6 +247,25 @@ pub fn run(cx: &mut Ctx) {
         }
     }
     cx.exhaustive.push("apply_from_error over every code byte / no code x 4 message types x pre-set reply options".into());
+    // every registered option (typed values of a few magnitudes) already on the reply when the error is
+    // applied: only the code, the payload and the Content-Format may change
+    {
+        let reg = crate::tbl::load_registry();
+        let nums: Vec<u16> = reg.tables.get("options").map(|t| t.keys().map(|k| *k as u16).collect()).unwrap_or_default();
+        for &n in &nums {
+            for val in [vec![], vec![7u8], vec![0x01, 0x00], b"txt".to_vec()] {
+                for code in [Some(0x84u8), Some(0x80), Some(0xA0), Some(0xA3), Some(0x45), Some(0x5f), None] {
+                    for typ in [0u8, 1] {
+                        let spec = PktSpec { vtt: 0x40 | typ << 4 | 1, code: CodeSpec::Byte(1), mid: 0x4444, tok: vec![0xdd], opts: vec![(11, b"r".to_vec()), (6, vec![])], payload: vec![] };
+                        case_err(cx, &spec, code, b"failed", &[(n, val.clone())]);
+                        if n != 12 {
+                            case_err(cx, &spec, code, b"failed", &[(n, val.clone()), (12, vec![50])]);
+                        }
+                    }
+                }
+            }
+        }
+    }
     // the reply / the request changed between from_packet and apply_from_error (separate response,
     // re-used request object), and pre-set Content-Format values that are not decodable
     let tweak_sets: Vec<Vec<Tweak>> = vec![
